@@ -251,3 +251,23 @@ func H_C03_ufloat64() {
 		vassert(b <= 0x7ff0000000000000, "C03: float generator produced a NaN")
 	}
 }
+
+// H_C03_floatRange: Float64Range on three representative ranges with 8 symbolic words (every
+// path of the real float kernel): the value is inside the range and not NaN, or the draw ends in
+// invalid data - in particular on bitstreams no PRNG produces (an "overflow" draw whose data word
+// is not all ones).
+func H_C03_floatRange() {
+	type rng struct{ lo, hi float64 }
+	r := []rng{{1, 3072.5}, {-1.5, 2.5}, {0, math.Inf(1)}}[choose("range", 3)]
+	g := Float64Range(r.lo, r.hi)
+	t := newT(nil, newBufBitStream(symWords("w", 8), false), false, nil)
+	var v float64
+	p := catch(func() { v = g.value(t) })
+	if p != nil {
+		vassert(isInvalid(p), "C03: a generator panicked with something other than invalid data")
+		reach("invalid")
+		return
+	}
+	vassert(v >= r.lo && v <= r.hi, "C03: Float64Range value out of range (or NaN)")
+	reach("value")
+}
